@@ -48,6 +48,7 @@ import (
 //	      member joins, F ForceRebalance, BF, L LeaveGroup, X Close,
 //	gate  before which of T1's calls T2 starts (T2 is declared first: on the
 //	      default schedule its calls run as soon as the gate opens),
+//	      (t2, gate and brk are one combined choice "env"),
 //	brk   what the coordinator answers to the FIRST OffsetCommit it receives:
 //	      normal, COORDINATOR_LOAD_IN_PROGRESS, NOT_COORDINATOR (both retried
 //	      by the client after a backoff) or UNKNOWN_TOPIC_OR_PARTITION (kfake
@@ -139,11 +140,11 @@ func scriptsOver(alpha string, n int) []string {
 }
 
 func t2scripts(t1 string, thorough bool) []string {
-	out := []string{"-"}
+	var out []string
 	if strings.ContainsRune(t1, 'a') {
 		out = append(out, "C")
 	}
-	out = append(out, "B", "L", "X")
+	out = append(out, "-", "B", "L", "X")
 	if thorough {
 		out = append(out, "F", "BF")
 		if strings.ContainsRune(t1, 'a') {
@@ -471,17 +472,29 @@ func genScenario() *netctl.Scenario {
 			cfg := cfgs[x.ChooseOf("cfg", cfgNames)]
 			t1s := scriptsOver(t1alphabet(cfg, thorough), L)
 			t1 := t1s[x.ChooseOf("t1", t1s)]
-			t2s := t2scripts(t1, thorough)
-			t2 := t2s[x.ChooseOf("t2", t2s)]
-			gate := 0
-			if t2 != "-" {
-				var gs []string
-				for i := 0; i <= L; i++ {
-					gs = append(gs, fmt.Sprint(i))
-				}
-				gate = x.ChooseOf("gate", gs)
+			// Second thread, its gate and the broker's first answer are ONE choice
+			// (fewer generations in the explorer's breadth-first order, so every
+			// script meets its disturbances early even if the time slice cuts the
+			// family short): "<t2>@<gate>/<brk>".
+			type envOpt struct {
+				t2        string
+				gate, brk int
 			}
-			brk := x.ChooseOf("brk", brks)
+			var envs []envOpt
+			var envNames []string
+			for _, s2 := range t2scripts(t1, thorough) {
+				for g := 0; g <= L; g++ {
+					if s2 == "-" && g > 0 {
+						break
+					}
+					for b := range brks {
+						envs = append(envs, envOpt{s2, g, b})
+						envNames = append(envNames, fmt.Sprintf("%s@%d/%s", s2, g, brks[b]))
+					}
+				}
+			}
+			env := envs[x.ChooseOf("env", envNames)]
+			t2, gate, brk := env.t2, env.gate, env.brk
 
 			c := x.Cluster(1, kfake.SeedTopics(2, "t"), kfake.GroupMaxSessionTimeout(10*time.Minute))
 			st := &gstate{x: x, cfg: cfg, t1: t1, t2: t2, initDone: make(chan struct{})}
@@ -911,5 +924,5 @@ func genFinal(x *netctl.Exec, st *gstate) {
 // {partition error, not coordinator} on the default schedule, then every
 // single deviation (time-capped).
 func GenPlans() []nrun.Plan {
-	return []nrun.Plan{{Scenario: genScenario(), QuickBudget: 0, ThoroughBudget: 1, Weight: 3}}
+	return []nrun.Plan{{Scenario: genScenario(), QuickBudget: 0, ThoroughBudget: 1, Weight: 5}}
 }
